@@ -64,7 +64,7 @@ func (r *Reporter) add(st Status, props []string, key, pos, msg string, trace ..
 	r.Obs = append(r.Obs, Ob{Rule: r.rule.ID, Key: k, Props: props, Pos: pos, Status: st, Msg: msg, Trace: trace})
 }
 
-func (r *Reporter) ok(key, pos, msg string)            { r.add(OK, nil, key, pos, msg) }
+func (r *Reporter) ok(key, pos, msg string)               { r.add(OK, nil, key, pos, msg) }
 func (r *Reporter) bad(key, pos, msg string, t ...string) { r.add(Violation, nil, key, pos, msg, t...) }
 func (r *Reporter) undecided(key, pos, msg string, t ...string) {
 	r.add(Undecided, nil, key, pos, msg, t...)
